@@ -11,7 +11,7 @@ trap 'git -C /repo worktree remove --force $WT >/dev/null 2>&1; rm -rf $WT' EXIT
 cd $WT
 if ! git apply $MD/patch.diff; then echo "RESULT apply=FAIL"; exit 0; fi
 if ! go build ./... 2>/tmp/try_build.$$; then echo "RESULT build=FAIL $(head -3 /tmp/try_build.$$)"; exit 0; fi
-STABLE=$(/verif/tools/run_stable.sh $WT 2>&1 | grep STABLE-RESULT)
+STABLE=$(/verif/tools/run_stable.sh $WT 2>&1 | grep "STABLE-RESULT\|NOT PASSING" | tr "\n" " ")
 if [ -f $MD/zz_demo_test.go ]; then cp $MD/zz_demo_test.go $WT/$PKG/zz_demo_test.go; else cp $MD/zz_demo_test.go.txt $WT/$PKG/zz_demo_test.go; fi
 DEMO_WITH=$(unshare -n -- bash -c "ip link set lo up; cd $WT && go test -vet=off -count=1 -timeout 120s -run 'Demo|demo|ZZ' ./$PKG 2>&1 | tail -3 | tr '\n' ' '" | cut -c1-200)
 git apply -R $MD/patch.diff
